@@ -5,8 +5,9 @@
    4 value...                       -> [in_block_range value]
    5 minimize k n1 pad1.. nk padk.. value... -> indent_all pads (print_block_string value minimize)
    6 minimize k n1 pad1.. nk padk.. value... -> re-lexed value of (5) followed by " x":
-                                       0 :: len(rest) :: value | [1; pos] | [2; w] | [3] *)
-From GV Require Import Base.Prelude Lang.Lexer Lang.BlockString.
+                                       0 :: len(rest) :: value | [1; pos] | [2; w] | [3]
+   7 n indent(n).. value...         -> print_description_text value indent *)
+From GV Require Import Base.Prelude Lang.Lexer Lang.BlockString Lang.Description.
 
 Definition enc_out (o : outcome (list N)) : list N :=
   match o with
@@ -49,5 +50,6 @@ Definition run (inp : list N) : list N :=
   | 6 :: m :: k :: r =>
     let '(pads, v) := dec_pads (N.to_nat k) r in
     relex (indent_all pads (print_block_string v (negb (m =? 0))))
+  | 7 :: n :: r => print_description_text (skipn (N.to_nat n) r) (firstn (N.to_nat n) r)
   | _ => [999999]
   end.
